@@ -40,7 +40,14 @@ static Scenario make_c06(std::map<std::string, long> const& cfg)
       *path = "/dev/shm/quill-verif-c06." + std::to_string(getpid()) + ".log";
       FileSinkConfig fc;
       fc.set_open_mode('w');
-      sinks.push_back(F::template create_or_get_sink<FileSink>(*path, fc, FileEventNotifier{}));
+      FileEventNotifier fen;
+      if (s.c("file", 0) == 2)
+      {
+        // file = 2: the sink has a before_write hook (the sink takes a different write path; what it writes must be flushed
+        // all the same)
+        fen.before_write = [](std::string_view m) { return std::string{m}; };
+      }
+      sinks.push_back(F::template create_or_get_sink<FileSink>(*path, fc, fen));
     }
     if (s.c("layout", 0) == 1)
     {
